@@ -264,7 +264,9 @@ Fixpoint declaration_loop (fuel F : nat) (p : parser) : pres (gtype * parser) :=
   end.
 
 Definition parse_declaration (F : nat) (p : parser) : pres (gtype * parser) :=
-  declaration_loop F F (set_buf p [(ptt p, pdata p)]).
+  let p := set_buf p [(ptt p, pdata p)] in
+  let p := if is_t (ptt p) TLeftBracket then set_level p (plevel p + 1) else p in
+  declaration_loop F F p.
 
 (* --- parseCustomProperty ----------------------------------------------------------------------------------------- *)
 Fixpoint custom_loop (fuel : nat) (p : parser) (val : list Z) : pres (gtype * parser) :=
@@ -313,7 +315,9 @@ Definition parse_declaration_list (F : nat) (p : parser) : pres (gtype * parser)
   let t := ptt p in
   if is_t t TError then POk (GError, p)
   else if is_t t TAtKeyword then parse_at_rule F p
-  else if is_t t TIdent || is_t t TDelim then parse_declaration F p
+  else if is_t t TIdent || is_t t TDelim
+          || (isstyle p && (is_t t THash || is_t t TColon || is_t t TLeftBracket)) then
+    parse_declaration F p     (* or a nested ruleset whose selector starts with #id, :pseudo or [attr] *)
   else if is_t t TCustomPropertyName then parse_custom_property F p
   else
     let p := set_err (set_buf p []) true in
